@@ -112,6 +112,9 @@ pub fn body_menu(full: bool) -> Vec<L> {
         v.push(L::Nonce(cookie_nonce([0, 0, 0], "")));
         v.push(L::Nonce(cookie_nonce([0x40, 0, 0], "n")));
         v.push(L::Nonce(cookie_nonce([0xC0, 0, 0], "nonce")));
+        for q in QUOTED_FORMS {
+            v.push(L::Nonce(q.to_string()));
+        }
         v.push(L::Nonce("obMatJos2AAA".into())); // one short of a cookie
         v.push(L::Nonce("f//499k954d6OL34oL9FSTvy64sA".into())); // RFC 5769
     }
@@ -123,6 +126,9 @@ pub fn body_menu(full: bool) -> Vec<L> {
     if full {
         v.push(L::Realm("a\\\"b".into()));
         v.push(L::Realm("r\\\"".into()));
+        for q in QUOTED_FORMS {
+            v.push(L::Realm(q.to_string()));
+        }
     }
     // USERNAME (OpaqueString: not empty; < 509 bytes)
     v.push(L::UserName("a".into()));
@@ -244,11 +250,33 @@ pub fn body_menu(full: bool) -> Vec<L> {
     v
 }
 
+/// REALM / NONCE texts in the quoted form (and unquoted look-alikes) whose content ends in backslash runs of either parity
+pub const QUOTED_FORMS: &[&str] = &[
+    "\"abc\"",             // "abc"            -> abc
+    "\"a\\\\\"",          // "a\\"           -> a\\      (ends in an escaped backslash: even run before the closing quote)
+    "\"\\\\\\\\\"",       // "\\\\"          -> \\\\     (two escaped backslashes and nothing else)
+    "\"a\\\\\\\"\"",       // "a\\\""         -> a\\\"    (escaped backslash, then an escaped quote: odd run)
+    "\"a\\\\b\"",         // "a\\b"          -> a\\b
+    "a\\\\",              // a\\  (not quoted) -> a\\
+    " \"ab\"",             // leading white space before the quoted form -> ab
+];
+
+/// What the accessors of a freshly constructed attribute are expected to return
+pub fn expected_constructed(l: &L) -> L {
+    match l {
+        L::Realm(s) => L::Realm(crate::refs::codec::quoted_ref(s)),
+        L::Nonce(s) => L::Nonce(crate::refs::codec::quoted_ref(s)),
+        other => other.clone(),
+    }
+}
+
 /// What the decoder is expected to return for a value that was built from `l` (R-strings table:
 /// USERNAME is run through OpaqueString enforcement on decode).
 pub fn expected_decoded(l: &L) -> L {
     match l {
         L::UserName(s) => L::UserName(opaque_enforce_ref(s).unwrap_or_else(|| s.clone())),
+        L::Realm(s) => L::Realm(crate::refs::codec::quoted_ref(s)),
+        L::Nonce(s) => L::Nonce(crate::refs::codec::quoted_ref(s)),
         other => other.clone(),
     }
 }
